@@ -119,6 +119,9 @@ def weave(repo, dst, variant="A", features=(), quiet=False):
 
     # (2) harness modules + (3) spec
     for rel, hfile in C.MODULES:
+        # a_*.rs only exist in variant A, b_*.rs only in variant B (hand-written stubs vs. contract attributes)
+        if (variant == "A" and hfile.startswith("b_")) or (variant == "B" and hfile.startswith("a_")):
+            continue
         p = os.path.join(dst, rel)
         if not os.path.exists(p):
             report["anchor_lost"].append("module:" + rel)
